@@ -164,7 +164,19 @@ func (p *flowProto) genHist(r *rand.Rand, n int, w *bufio.Writer) {
 			msg := hdr
 			exp := ""
 			known, have := ref[refKey{string(addr), id}]
-			switch k := r.Intn(10); {
+			if have && len(known.all()) == 0 && r.Intn(3) > 0 {
+				// the latest announcement of this id has no fields: data for it cannot be decoded, whatever it carries
+				hdr, hdrTxt := p.header(r, ver)
+				body := rndBytes(r, 8+r.Intn(16))
+				fmt.Fprintf(w, "%s %s %s\t%smsg %s errs=emptyrec recs=\n", p.name, hx(addr), hx(cat(hdr, be16(id), be16(4+len(body)), body)), tag, hdrTxt)
+				emitted++
+				continue
+			}
+			kk := r.Intn(10)
+			if have && len(known.all()) == 0 {
+				have, kk = false, 0 // re-announce it with fields below
+			}
+			switch k := kk; {
 			case k < 4 || !have && k < 6: // (re-)announce, possibly with a different definition, then maybe data in the same message
 				t := p.histTpl(r, id)
 				if have && r.Intn(2) == 0 {
@@ -192,6 +204,20 @@ func (p *flowProto) genHist(r *rand.Rand, n int, w *bufio.Writer) {
 				msg = append(msg, p.tplSetBytes(t)...)
 				msg = append(msg, ds2...)
 				exp = "msg " + hdrTxt + " errs= recs=" + rs1 + rs2
+			case have && k == 7 && p.isIPFIX: // the id is re-announced WITHOUT fields (the withdrawal format) next to another record, then data for it
+				other := p.histTpl(r, 60000+r.Intn(50)) // an id no other step uses
+				for other.opts { // both records go into one plain template set
+					other = p.histTpl(r, other.id)
+				}
+				empty := tpl{id: id}
+				ref[refKey{string(addr), other.id}] = other
+				ref[refKey{string(addr), id}] = empty
+				recE, recO := p.encTplRec(empty), p.encTplRec(other)
+				msg = append(msg, cat(be16(p.tplSet), be16(4+len(recE)+len(recO)), recE, recO)...)
+				body := rndBytes(r, 8+r.Intn(16))
+				msg = append(msg, cat(be16(id), be16(4+len(body)), body)...)
+				// the latest announcement has no fields: the data set cannot be decoded (non-fatal since F30), no records
+				exp = "msg " + hdrTxt + " errs=emptyrec recs="
 			case have: // data for the latest announced definition
 				ds, rs := p.dataSetBytes(r, known, 1+r.Intn(3))
 				msg = append(msg, ds...)
